@@ -61,7 +61,7 @@ func init() {
 			"'never early' is one-sided: the start instant is read before Play/MultiPlay is called, so machine load can only delay sends, never make the check fire",
 			"sysex events in tracks are not constrained (the statement speaks of channel messages and meta events)",
 		},
-		Require: []string{"plays", "sends_observed", "same_tick_runs_ge_13", "cross_track_same_tick", "selections_proper_subset", "maps_without_default", "never_early_checks", "play_single_port", "replays_with_rerouted_map", "late_schedule_plays", "round_gap_plays"},
+		Require: []string{"plays", "sends_observed", "same_tick_runs_ge_13", "cross_track_same_tick", "selections_proper_subset", "maps_without_default", "never_early_checks", "play_single_port", "replays_with_rerouted_map", "late_schedule_plays", "round_gap_plays", "selections_with_repeated_tracks"},
 		Workers: 16,
 		Run:     runC12,
 	})
@@ -160,9 +160,34 @@ func runC12(c *mon.Ctx) {
 		} else {
 			sels = [][]int{nil, {0}, {1, 3}, {0, 2, 4}, {4}}
 		}
+		// a selection is a list, not a set: tracks named several times, in any order, also numbers of
+		// tracks the file does not have
+		for k := 0; k < 2; k++ {
+			base := sels[1+r.Intn(len(sels)-1)]
+			var m []int
+			for _, t := range base {
+				for rep := r.Pick(1, 2, 3, 3, 4, 7); rep > 0; rep-- {
+					m = append(m, t)
+				}
+			}
+			if r.P(1, 3) {
+				m = append(m, nt+r.Intn(3), nt+5)
+			}
+			for j := len(m) - 1; j > 0; j-- {
+				q := r.Intn(j + 1)
+				m[j], m[q] = m[q], m[j]
+			}
+			if len(m) > 0 {
+				sels = append(sels, m)
+			}
+		}
+		nPlain := len(sels) - 2
 		for si, sel := range sels {
-			if c.Quick() && si > 3 && !r.P(1, 3) {
+			if c.Quick() && si > 3 && si < nPlain && !r.P(1, 3) {
 				continue
+			}
+			if si >= nPlain {
+				c.Count("selections_with_repeated_tracks", 1)
 			}
 			selected := func(t int) bool {
 				if len(sel) == 0 {
